@@ -70,28 +70,24 @@ impl VectorCommitment<HR> for RecVC {
 
 /// two rows of width W; partition options concrete per instance (num_partitions, hash_rate)
 fn commit_follows_rule<const W: usize>(np: usize, hr: usize) {
+    use math::FieldElement;
     mk::reset();
     let mut data = Vec::new();
-    let mut bytes = [[0u8; 48]; 2];
-    let mut r = 0;
-    while r < 2 {
-        let mut i = 0;
-        while i < W {
-            let v = vs::any_u64();
-            vs::assume(v < 0xffffffff00000001);
-            data.push(F64::from_mont(v));
-            bytes[r][8 * i..8 * i + 8].copy_from_slice(&v.to_le_bytes());
-            i += 1;
-        }
-        r += 1;
+    let mut i = 0;
+    while i < 2 * W {
+        let v = vs::any_u64();
+        vs::assume(v < 0xffffffff00000001);
+        data.push(F64::from_mont(v));
+        i += 1;
     }
     let m = RowMatrix::<F64> { data, row_width: W, elements_per_row: W };
     let po = PartitionOptions::new(np, hr);
     let p = po.partition_size::<F64>(W);
     let _vc: RecVC = m.commit_to_rows::<HR, RecVC>(po);
-    let s0 = mk::rowhash_spec(0, &bytes[0][..8 * W], 8, p);
-    let ok = match s0 {
-        Some((n0, out0)) => match mk::rowhash_spec(n0, &bytes[1][..8 * W], 8, p) {
+    // the bytes of a row are the in-memory bytes of its elements (what hash_elements of the recording hasher sees)
+    let (r0, r1) = (F64::elements_as_bytes(m.row(0)), F64::elements_as_bytes(m.row(1)));
+    let ok = match mk::rowhash_spec(0, r0, 8, p) {
+        Some((n0, out0)) => match mk::rowhash_spec(n0, r1, 8, p) {
             Some((n1, out1)) => unsafe {
                 n1 == mk::calls() && N_ITEMS == 2 && ITEMS[0][..DN] == out0 && ITEMS[1][..DN] == out1
             },
@@ -134,30 +130,94 @@ fn commit_follows_rule_quad<const W: usize>(np: usize, hr: usize) {
     vcheck!("C28.rowhash.prover.follows_rule.extension_field", ok);
 }
 
-//# harness: fn=RowMatrix::commit_to_rows over QuadExtension (aux / constraint commitments); label=bounded(2 rows; 2 and 3 extension columns; partition settings (1,1), (2,1), (2,8), (2,2); every element, any hash function); tier=quick; uses=commit_follows_rule_quad; timeout=900
+//# harness: fn=RowMatrix::commit_to_rows over QuadExtension (2 extension columns, partitions (1, 1)); label=bounded(2 rows of 2 quadratic-extension columns, partition setting (1, 1); every element, any hash function); tier=quick; uses=commit_follows_rule_quad; timeout=900
 #[cfg_attr(kani, kani::proof)]
 #[cfg_attr(kani, kani::unwind(50))]
 #[cfg_attr(kani, kani::stub(alloc::fmt::format, vs::fake_format))]
-pub fn k_c28_prover_commit_to_rows_extension() {
+pub fn k_c28_prover_commit_to_rows_ext_w2_p1_1() {
     commit_follows_rule_quad::<2>(1, 1);
-    commit_follows_rule_quad::<2>(2, 1);
-    commit_follows_rule_quad::<3>(2, 2);
-    commit_follows_rule_quad::<3>(2, 8);
-    vreach!("C28.prover_ext.reach");
+    vreach!("C28.prover_ext.w2_p1_1.reach");
 }
 
-//# harness: fn=RowMatrix::commit_to_rows, PartitionOptions::partition_size, num_partitions; label=bounded(2 rows; widths 1..=6; partition settings (1,1), (2,1), (2,8), (4,1), (3,2); every element, any hash function); tier=quick; uses=commit_follows_rule; timeout=900
+//# harness: fn=RowMatrix::commit_to_rows over QuadExtension (2 extension columns, partitions (2, 1)); label=bounded(2 rows of 2 quadratic-extension columns, partition setting (2, 1); every element, any hash function); tier=quick; uses=commit_follows_rule_quad; timeout=900
+#[cfg_attr(kani, kani::proof)]
+#[cfg_attr(kani, kani::unwind(50))]
+#[cfg_attr(kani, kani::stub(alloc::fmt::format, vs::fake_format))]
+pub fn k_c28_prover_commit_to_rows_ext_w2_p2_1() {
+    commit_follows_rule_quad::<2>(2, 1);
+    vreach!("C28.prover_ext.w2_p2_1.reach");
+}
+
+//# harness: fn=RowMatrix::commit_to_rows over QuadExtension (3 extension columns, partitions (2, 2)); label=bounded(2 rows of 3 quadratic-extension columns, partition setting (2, 2); every element, any hash function); tier=quick; uses=commit_follows_rule_quad; timeout=900
+#[cfg_attr(kani, kani::proof)]
+#[cfg_attr(kani, kani::unwind(50))]
+#[cfg_attr(kani, kani::stub(alloc::fmt::format, vs::fake_format))]
+pub fn k_c28_prover_commit_to_rows_ext_w3_p2_2() {
+    commit_follows_rule_quad::<3>(2, 2);
+    vreach!("C28.prover_ext.w3_p2_2.reach");
+}
+
+//# harness: fn=RowMatrix::commit_to_rows over QuadExtension (3 extension columns, partitions (2, 8)); label=bounded(2 rows of 3 quadratic-extension columns, partition setting (2, 8); every element, any hash function); tier=quick; uses=commit_follows_rule_quad; timeout=900
+#[cfg_attr(kani, kani::proof)]
+#[cfg_attr(kani, kani::unwind(50))]
+#[cfg_attr(kani, kani::stub(alloc::fmt::format, vs::fake_format))]
+pub fn k_c28_prover_commit_to_rows_ext_w3_p2_8() {
+    commit_follows_rule_quad::<3>(2, 8);
+    vreach!("C28.prover_ext.w3_p2_8.reach");
+}
+
+//# harness: fn=RowMatrix::commit_to_rows, PartitionOptions::partition_size, num_partitions (width 1, partitions (1, 1)); label=bounded(2 rows of 1 base-field columns, partition setting (1, 1); every element, any hash function); tier=quick; uses=commit_follows_rule; timeout=900
 #[cfg_attr(kani, kani::proof)]
 #[cfg_attr(kani, kani::unwind(34))]
 #[cfg_attr(kani, kani::stub(alloc::fmt::format, vs::fake_format))]
-pub fn k_c28_prover_commit_to_rows() {
+pub fn k_c28_prover_commit_to_rows_w1_p1_1() {
     commit_follows_rule::<1>(1, 1);
+    vreach!("C28.prover.w1_p1_1.reach");
+}
+
+//# harness: fn=RowMatrix::commit_to_rows, PartitionOptions::partition_size, num_partitions (width 4, partitions (1, 1)); label=bounded(2 rows of 4 base-field columns, partition setting (1, 1); every element, any hash function); tier=quick; uses=commit_follows_rule; timeout=900
+#[cfg_attr(kani, kani::proof)]
+#[cfg_attr(kani, kani::unwind(34))]
+#[cfg_attr(kani, kani::stub(alloc::fmt::format, vs::fake_format))]
+pub fn k_c28_prover_commit_to_rows_w4_p1_1() {
     commit_follows_rule::<4>(1, 1);
+    vreach!("C28.prover.w4_p1_1.reach");
+}
+
+//# harness: fn=RowMatrix::commit_to_rows, PartitionOptions::partition_size, num_partitions (width 4, partitions (2, 1)); label=bounded(2 rows of 4 base-field columns, partition setting (2, 1); every element, any hash function); tier=quick; uses=commit_follows_rule; timeout=900
+#[cfg_attr(kani, kani::proof)]
+#[cfg_attr(kani, kani::unwind(34))]
+#[cfg_attr(kani, kani::stub(alloc::fmt::format, vs::fake_format))]
+pub fn k_c28_prover_commit_to_rows_w4_p2_1() {
     commit_follows_rule::<4>(2, 1);
+    vreach!("C28.prover.w4_p2_1.reach");
+}
+
+//# harness: fn=RowMatrix::commit_to_rows, PartitionOptions::partition_size, num_partitions (width 4, partitions (2, 8)); label=bounded(2 rows of 4 base-field columns, partition setting (2, 8); every element, any hash function); tier=quick; uses=commit_follows_rule; timeout=900
+#[cfg_attr(kani, kani::proof)]
+#[cfg_attr(kani, kani::unwind(34))]
+#[cfg_attr(kani, kani::stub(alloc::fmt::format, vs::fake_format))]
+pub fn k_c28_prover_commit_to_rows_w4_p2_8() {
     commit_follows_rule::<4>(2, 8);
+    vreach!("C28.prover.w4_p2_8.reach");
+}
+
+//# harness: fn=RowMatrix::commit_to_rows, PartitionOptions::partition_size, num_partitions (width 5, partitions (4, 1)); label=bounded(2 rows of 5 base-field columns, partition setting (4, 1); every element, any hash function); tier=quick; uses=commit_follows_rule; timeout=900
+#[cfg_attr(kani, kani::proof)]
+#[cfg_attr(kani, kani::unwind(34))]
+#[cfg_attr(kani, kani::stub(alloc::fmt::format, vs::fake_format))]
+pub fn k_c28_prover_commit_to_rows_w5_p4_1() {
     commit_follows_rule::<5>(4, 1);
+    vreach!("C28.prover.w5_p4_1.reach");
+}
+
+//# harness: fn=RowMatrix::commit_to_rows, PartitionOptions::partition_size, num_partitions (width 6, partitions (3, 2)); label=bounded(2 rows of 6 base-field columns, partition setting (3, 2); every element, any hash function); tier=quick; uses=commit_follows_rule; timeout=900
+#[cfg_attr(kani, kani::proof)]
+#[cfg_attr(kani, kani::unwind(34))]
+#[cfg_attr(kani, kani::stub(alloc::fmt::format, vs::fake_format))]
+pub fn k_c28_prover_commit_to_rows_w6_p3_2() {
     commit_follows_rule::<6>(3, 2);
-    vreach!("C28.prover.reach");
+    vreach!("C28.prover.w6_p3_2.reach");
 }
 
 //# harness: fn=PartitionOptions::partition_size, num_partitions; label=complete in columns 1..=255 and every partition setting (1..=16, 1..=256), extension degrees 1, 2, 3; tier=quick
